@@ -50,4 +50,15 @@ package metadata
 //@   requires rm != nil ==> len(rm.PublishedOperations) == 0 || len(rm.UnpublishedOperations) == 0 || arrOf(rm.PublishedOperations) != arrOf(rm.UnpublishedOperations)
 //@   results md, err
 //@   ensures err == nil ==> md != nil && fresh(md) && rm != nil && rm.Doc != nil && info != nil
+// the metadata reports the model's commitments, anchor origin, deactivated / published flags, version id and the
+// canonical / equivalent ids unaltered
+//@   ensures err == nil ==> isType(md["method"], "document.Metadata") && unbox(md["method"], "document.Metadata") != nil && fresh(unbox(md["method"], "document.Metadata")) && "published" in unbox(md["method"], "document.Metadata") && unbox(md["method"], "document.Metadata")["published"] == info["published"]
+//@   ensures err == nil ==> ("recoveryCommitment" in unbox(md["method"], "document.Metadata")) == (rm.RecoveryCommitment != "") && (rm.RecoveryCommitment != "" ==> unbox(md["method"], "document.Metadata")["recoveryCommitment"] == boxed(rm.RecoveryCommitment))
+//@   ensures err == nil ==> ("updateCommitment" in unbox(md["method"], "document.Metadata")) == (rm.UpdateCommitment != "") && (rm.UpdateCommitment != "" ==> unbox(md["method"], "document.Metadata")["updateCommitment"] == boxed(rm.UpdateCommitment))
+//@   ensures err == nil ==> ("anchorOrigin" in unbox(md["method"], "document.Metadata")) == (rm.AnchorOrigin != nil) && (rm.AnchorOrigin != nil ==> unbox(md["method"], "document.Metadata")["anchorOrigin"] == rm.AnchorOrigin)
+//@   ensures err == nil ==> ("deactivated" in md) == rm.Deactivated && (rm.Deactivated ==> md["deactivated"] == boxed(true))
+//@   ensures err == nil ==> ("canonicalId" in md) == ("canonicalId" in info) && ("canonicalId" in info ==> md["canonicalId"] == info["canonicalId"])
+//@   ensures err == nil ==> ("equivalentId" in md) == ("equivalentId" in info) && ("equivalentId" in info ==> md["equivalentId"] == info["equivalentId"])
+//@   ensures err == nil ==> ("versionId" in md) == (rm.VersionID != "") && (rm.VersionID != "" ==> md["versionId"] == boxed(rm.VersionID))
+//@   ensures err == nil ==> ("created" in md) == unbox(info["published"], "bool") && ("updated" in md) == (rm.VersionID != "" && rm.UpdatedTime > 0)
 //@   modifies elems(rm.PublishedOperations), elems(rm.UnpublishedOperations)
